@@ -357,6 +357,21 @@ def coq_terms(m):
         rec = struct.unpack_from('QQQQIII', buf, 4 + i * struct.calcsize('QQQQIII'))
         masks.append((rec[6], rec[3]))
     t['ring_masks'] = masks
+    # the two-element unpack of _connected_rings: every pair of SSSR rings with exactly one common bond, merged in both orders
+    from chython.algorithms.rings import _canonic_ring, _ring_scissors, _ring_adjacency
+    pairs = []
+    rings = list(m.sssr)
+    for i in range(len(rings)):
+        for j in range(i + 1, len(rings)):
+            c, r = rings[i], rings[j]
+            common = set(c) & set(r)
+            if len(common) == 2:
+                n, k = sorted(common)
+                if k in _ring_adjacency(c)[n] and k in _ring_adjacency(r)[n]:
+                    e1 = _canonic_ring((*_ring_scissors(c, n, k), *_ring_scissors(r, k, n)[1:-1]))
+                    e2 = _canonic_ring((*_ring_scissors(c, k, n), *_ring_scissors(r, n, k)[1:-1]))
+                    pairs.append((list(c), list(r), n, k, list(e1), list(e2)))
+    t['fused_pairs'] = pairs[:8]
     # _fragments: the enumeration order of the chain set as this process sees it, and the dict it builds (order included)
     ch = list(m._chains(1, 3))
     t['chains_enum'] = [list(c) for c in ch]
@@ -545,6 +560,11 @@ def worker(spec_path, out_path):
     t0 = time.time()
     spec = json.load(open(spec_path))
     import boot  # noqa
+    instrumented = os.environ.get('C19_INSTRUMENT') == '1'
+    if instrumented:
+        # run-time cross-check of the audit's typing: the audited modules are imported through the recording AST rewriter
+        import gen_setaudit
+        gen_setaudit.install_runtime_audit(spec['repo'])
     cython, notes = inject_pyx(spec['repo'])
     from chython import smiles, smarts, MoleculeContainer, SDFRead, SDFWrite
     env = {'cython': cython, 'MoleculeContainer': MoleculeContainer}
@@ -577,6 +597,15 @@ def worker(spec_path, out_path):
         ops = observe_ops(m, env)                           # operations on copies: m itself must stay untouched
         for d in json.loads(ops.pop('__stale__')):
             intra.append(dict(d, input=tag, variant='fresh copy after the edit' if d['observable'].startswith('edit') else 'that attribute read first on a fresh copy'))
+        if instrumented:         # one pass over every observable is enough to execute the code; the comparisons are for the others
+            first.update(ops)
+            obs[tag] = first
+            if tag in spec.get('history_inputs', ()):
+                try:
+                    history_variants(tag, smi, env, out_path + '.pk', intra)
+                except Exception:
+                    pass
+            continue
         second = observe_reads(m, env, 'backward')          # every cached value is now read from the cache
         compare_variants(tag, first, second, 'second call (cached, after operations on copies)', intra)
         if idx % 3 == 1 or tag.startswith('hand'):
@@ -647,7 +676,12 @@ def worker(spec_path, out_path):
         except Exception as e:
             o['read'] = f'EXC:{type(e).__name__}'
         obs[tag] = o
-    json.dump({'obs': obs, 'intra': intra, 'terms': terms, 'notes': notes, 'cython': cython, 'hashseed': os.environ.get('PYTHONHASHSEED'),
+    executed = None
+    if instrumented:
+        import gen_setaudit
+        executed = {'set': [[list(k), v] for k, v in sorted(gen_setaudit.EXECUTED.items())],
+                    'non_set': [[list(k), v] for k, v in sorted(gen_setaudit.SEEN_NON_SET.items())]}
+    json.dump({'obs': obs, 'intra': intra, 'terms': terms, 'notes': notes, 'cython': cython, 'hashseed': os.environ.get('PYTHONHASHSEED'), 'executed': executed,
                'str_hash_probe': hash('chython') & 0xffff, 'wall': round(time.time() - t0, 1)}, open(out_path, 'w'))
 
 
@@ -755,7 +789,7 @@ def build_spec(ck):
             'fragments': FRAGMENTS, 'reactor': REACTOR, 'model_inputs': model_inputs, 'sdf': sdf, 'sdf_limit': 10 if quick else 40, 'reparse': True}
 
 
-def run_workers(ck, spec, seeds):
+def run_workers(ck, spec, seeds, instrument=()):
     """one fresh interpreter per entry of `seeds`; returns list of (label, seed, result dict | None, log)"""
     tmp = tempfile.mkdtemp(prefix='c19_')
     spec_path = os.path.join(tmp, 'spec.json')
@@ -772,6 +806,8 @@ def run_workers(ck, spec, seeds):
     def launch(i, seed):
         out = os.path.join(tmp, f'out{i}.json')
         env = dict(env_base, PYTHONHASHSEED=str(seed))
+        if i in instrument:
+            env['C19_INSTRUMENT'] = '1'
         logf = open(os.path.join(tmp, f'log{i}.txt'), 'w')          # a file, not a pipe: a chatty worker must never block
         p = subprocess.Popen(['/venv/bin/python', '-u', worker_py, '--worker', spec_path, out], env=env,
                              stdout=logf, stderr=subprocess.STDOUT, text=True)
@@ -799,6 +835,8 @@ def run_workers(ck, spec, seeds):
                 running.remove(r)
         time.sleep(0.2)
     results.sort()
+    inst_results = [r for r in results if r[0] in instrument]
+    results = [r for r in results if r[0] not in instrument]
     # phase 2: every process position loads, under ITS seed, the pickles written by the next process (another seed)
     if spec.get('history_inputs') and len(results) > 1:
         loaders = []
@@ -826,6 +864,8 @@ def run_workers(ck, spec, seeds):
                 lres = {'error': open(os.path.join(tmp, f'loadlog{i}.txt'), errors='replace').read()[-2000:], 'written_under_seed': src_seed}
             results[pos][2]['loader'] = lres
     shutil.rmtree(tmp, ignore_errors=True)
+    if instrument:
+        return results, inst_results
     return results
 
 
@@ -942,6 +982,7 @@ def differential(ck, spec, results, label=''):
 # ---- correspondence with the seed-free models ----------------------------------------------------------------
 
 EXTRA = '''From Model Require Import Graph PyHash Determinism.
+From Proofs Require Import DeterminismRings.
 From Model Require Morgan Fingerprint.
 Import ListNotations.
 Open Scope list_scope.
@@ -966,6 +1007,9 @@ Definition fr_ok (g : mol) (ids : list (Z * Z)) (enum : list (list Z)) (expect :
   frd_eqb (canon_frd (fragments_of idf ord (rev enum))) (canon_frd expect) &&
   list_eqb Z.eqb (frag_hash_set zlist_eqb (frag_key idf ord) (frag_val idf ord) h 2 enum) hs &&
   list_eqb Z.eqb (frag_hash_set zlist_eqb (frag_key idf ord) (frag_val idf ord) h 2 (rev enum)) hs.
+(* n, m = common in _connected_rings: the model of the merge expression equals the real one for both enumerations *)
+Definition mr_ok (c r : list Z) (n m : Z) (e1 e2 : list Z) : bool :=
+  pyres_eqb (list_eqb Z.eqb) (merged_ring c r n m) (Ok e1) && pyres_eqb (list_eqb Z.eqb) (merged_ring c r m n) (Ok e2) && list_eqb Z.eqb e1 e2.
 (* weight groups of _smiles: the table computed over the enumeration and over its reverse give the observed counts *)
 Definition gs_ok (ws : list (Z * Z)) (enum : list Z) (expect : list (Z * Z)) : bool :=
   let w := fun n => match zget ws n with Some v => v | None => 0 end in
@@ -1074,6 +1118,10 @@ def correspondence(ck, spec, results):
                     g, lst([tup(zraw(k), zraw(v)) for k, v in t['identifiers']]), lst([zl(c) for c in t['chains_enum']]),
                     lst([tup(zl(k), lst([zl(c) for c in v])) for k, v in t['fragments']]), zl(t['linear_hash_set_13'])))
                 meta.append((tag, '_fragments dict (order included) and linear_hash_set from the observed and the reversed enumeration', seed))
+            for c_, r_, n_, k_, e1, e2 in t.get('fused_pairs', []):
+                cases.append(f'mr_ok {lst(c_, zraw)} {lst(r_, zraw)} {zraw(n_)} {zraw(k_)} {lst(e1, zraw)} {lst(e2, zraw)}')
+                meta.append((tag, f'merged ring of two fused SSSR rings over the bond {n_}-{k_}, both unpack orders', seed))
+                ck.count('fused ring pairs (two-element unpack)')
             ws = t['weights']
             if ws and all(0 <= v < 100000 for _, v in ws):
                 groups = {}
@@ -1127,6 +1175,41 @@ def correspondence(ck, spec, results):
     return good1 and good2
 
 
+def runtime_audit(ck, spec, results, inst):
+    """goal: the static typing of the audit is a heuristic - every set iteration that is EXECUTED in the audited files while the
+    inputs of this run are observed must be one of the statically audited sites"""
+    import gen_setaudit
+    res = inst[0][2] if inst else None
+    ck.oblige('instrumented worker process (AST-rewritten audited modules) ran to completion', res is not None and res.get('executed') is not None,
+              'machinery', inst[0][3] if inst else 'not started')
+    if res is None or res.get('executed') is None:
+        ck.unchecked('run-time cross-check of the set audit did not run', inst[0][3] if inst else '')
+        return
+    audited = {gen_setaudit.strip_occurrence(s) for s in gen_setaudit.audit(common.REPO)}
+    executed = {tuple(k): v for k, v in res['executed']['set']}
+    non_set = {tuple(k): v for k, v in res['executed']['non_set']}
+    missing = sorted(k for k in executed if k not in audited)
+    confirmed = sorted(k for k in executed if k in audited)
+    never_set = sorted(k for k in non_set if k in audited and k not in executed)
+    ck.extra['runtime_audit'] = {'executed_set_sites': len(executed), 'executions': sum(executed.values()), 'audited_and_executed_with_a_set': len(confirmed),
+                                 'audited_sites': len(audited), 'audited_but_only_seen_with_non_sets': [list(k) for k in never_set],
+                                 'audited_never_executed': len([k for k in audited if k not in executed and k not in non_set and not k[2].startswith('hash ')]),
+                                 'executed_but_not_audited': [list(k) + [executed[k]] for k in missing]}
+    ck.oblige(f'run-time cross-check: all {len(executed)} set-order sites executed in the audited files ({sum(executed.values())} executions) are statically audited sites',
+              not missing, 'translator', repr(missing))
+    if missing:
+        ck.unchecked('set-iteration audit: a set iteration was EXECUTED in an audited file at a place the static audit does not list (its typing heuristic '
+                     'missed it): add a type hint to tools/gen_setaudit.py HINTS and classify the site', repr(missing))
+    # the instrumentation must not change behaviour: its observations equal those of the plain process under the same seed
+    plain = next((r for i, s, r, l in results if r is not None and str(s) == '0'), None)
+    if plain is not None:
+        bad = [(tag, k) for tag, ob in res['obs'].items() if not tag.startswith('hist|') for k, v in ob.items()
+               if plain['obs'].get(tag, {}).get(k, v) != v and family(k) not in ('morgan_hash_smiles', 'morgan_smiles_hash')]
+        ck.oblige('the instrumented modules behave like the plain ones (same observations under the same seed)', not bad, 'machinery', repr(bad[:5]))
+        if bad:
+            ck.unchecked('the AST instrumentation changed the behaviour of the audited modules', repr(bad[:10]))
+
+
 def audit_report(ck):
     """human readable diff between the current audit and the allow-list (the theorem C19_audit_complete is what decides)"""
     import re
@@ -1143,9 +1226,9 @@ def audit_report(ck):
     body = common.strip_comments(txt[txt.index('Definition allow_list'):txt.index('Definition known_lemmas')])
     body_full = body
     body = re.sub(r'"(?:[^"]|"")*"', '""', body)          # reasons are counted outside string literals
-    reasons = {r: len(re.findall(r'\b' + r + r'\b', body)) for r in ('OrderFree', 'OrderFreeUpTo', 'OtherProperty', 'FalsePositive', 'KeyedTieBreak', 'IntHistory', 'HashOfInts', 'HashOfStr', 'StrSet')}
+    reasons = {r: len(re.findall(r'\b' + r + r'\b', body)) for r in ('OrderFree', 'OrderFreeUpTo', 'OrderFreeIf', 'OtherProperty', 'OtherPropertyUpTo', 'FalsePositive', 'KeyedTieBreak', 'IntHistory', 'HashOfInts', 'HashOfStr', 'StrSet')}
     # a reason that points at a theorem of another property: that theorem must exist in its props file
-    for thm in re.findall(r'OtherProperty\s+"([^"]+)"', body_full):
+    for thm in re.findall(r'OtherProperty(?:UpTo)?\s+"([^"]+)"', body_full):
         pf = os.path.join(common.COQ, 'props', thm.split('_')[0] + '.v')
         ok = os.path.exists(pf) and re.search(r'^\s*Theorem\s+' + re.escape(thm) + r'\b', open(pf).read(), re.M) is not None
         ck.oblige(f'audit reason OtherProperty "{thm}": the theorem exists in props/{thm.split("_")[0]}.v', ok, 'audit', pf)
@@ -1155,7 +1238,7 @@ def audit_report(ck):
     new = sorted(cur - allowed)
     gone = sorted(allowed - cur)
     ck.extra['audit'] = {'sites': len(sites), 'files': gen_setaudit.FILES, 'new_sites': new, 'vanished_sites': gone, 'reasons': reasons,
-                         'sites_whose_reason_is_a_theorem': reasons['OrderFree'] + reasons['OrderFreeUpTo'] + reasons['OtherProperty'] + reasons['HashOfInts'],
+                         'sites_whose_reason_is_a_theorem': reasons['OrderFree'] + reasons['OrderFreeUpTo'] + reasons['OrderFreeIf'] + reasons['OtherProperty'] + reasons['OtherPropertyUpTo'] + reasons['HashOfInts'],
                          'by_kind': {k: sum(1 for s in sites if s[2].startswith(k + ' ')) for k in ('for', 'call', 'pop', 'unpack', 'star', 'hash')}}
     ck.oblige('audit (Python view): every set-order / hash() site of the current source is allow-listed and no entry is stale',
               not new and not gone, 'translator', f'new: {new}\nvanished: {gone}')
@@ -1204,10 +1287,11 @@ def run(ck):
     seeds = [0, 1, 2, rng.randrange(3, 2 ** 32)] if ck.tier == 'quick' else \
         [0, 1, 2] + [rng.randrange(3, 2 ** 32) for _ in range(2)] + [0]
     t0 = time.time()
-    results = run_workers(ck, spec, seeds)
+    results, inst = run_workers(ck, spec, seeds + [0], instrument={len(seeds)})     # the last process runs the instrumented modules
     phases['worker + loader processes'] = round(time.time() - t0, 1)
     t0 = time.time()
     differential(ck, spec, results)
+    runtime_audit(ck, spec, results, inst)
     phases['comparison'] = round(time.time() - t0, 1)
     t0 = time.time()
     tied = correspondence(ck, spec, results)
